@@ -1,4 +1,14 @@
 CHECKS = {
+ "C04": {
+  "text": "Generated well-typed programs (1..6 operator nodes over the property's operator list with Euclidean glue; 1..3 inputs of kind "
+          "group / algebra / point) evaluated at generic, identity, tiny and large-rotation points, through five autograd routes, against "
+          "Richardson finite differences of the same forward program where group inputs are perturbed on the left with the harness's own "
+          "exponential; exact-zero last slot and finiteness; a separate sweep bounds the sim3 truncation by |ad|^6/360. Samples the "
+          "program space; a defect needing one specific deep composition in a thin regime can be missed.",
+  "design_ref": "DESIGN.md section 3, C04",
+  "note": "Forward values come from pypose itself (verified by C01-C05); perturbations and the differencing are the harness's. Tolerance 1e-6 (|J|+1) in float64.",
+  "technique": "property-based testing: Hypothesis-generated programs (typed grammar) against a finite-difference reference Jacobian",
+ },
  "C11": {
   "text": "Generated group elements aimed at the four branches of the quaternion extraction (angle pi +- delta about axes/diagonals, both "
           "quaternion signs, scales 1e-3..1e3) converted through matrix() and back on every accepted layout with check on/off; Euler "
